@@ -207,6 +207,39 @@ pub fn padding_bit_ops(tier: &str, rng: &mut Prng, ops: &mut Vec<Case>) {
     }
 }
 
+/// encodings in which one coefficient (not the last, and the last) has a unary run of every length 0..=96: whatever way
+/// a decoder finds the stop bit, every run length below the cap must decode and the cap itself must be refused
+pub fn unary_run_ops(ops: &mut Vec<Case>) {
+    for r in 0..=96i64 {
+        for (pos, n) in [(0usize, 3usize), (1, 3), (2, 3), (0, 2)] {
+            let mut v = vec![5i32, -3, 7];
+            v.truncate(n);
+            let low = (r * 37 + 11) % 128;
+            v[pos] = ((r * 128 + low) as i32) * if r % 2 == 0 { 1 } else { -1 };
+            // bit-level encoding (the reference compressor refuses magnitudes the cap excludes, so build the bits here)
+            let mut bits: Vec<bool> = vec![];
+            for &c in &v {
+                bits.push(c < 0);
+                let m = c.unsigned_abs();
+                for b in (0..7).rev() {
+                    bits.push((m >> b) & 1 == 1);
+                }
+                bits.extend(std::iter::repeat(false).take((m >> 7) as usize));
+                bits.push(true);
+            }
+            for extra in [0usize, 2] {
+                let mut bytes = vec![0u8; (bits.len() + 7) / 8 + extra];
+                for (i, &b) in bits.iter().enumerate() {
+                    if b {
+                        bytes[i / 8] |= 0x80 >> (i % 8);
+                    }
+                }
+                ops.push(Case::new(format!("decompress {n} {}", hex(&bytes))));
+            }
+        }
+    }
+}
+
 pub fn generate(tier: &str, rng: &mut Prng) -> Vec<Case> {
     let mut ops = vec![];
     let thorough = tier == "thorough";
